@@ -1222,7 +1222,14 @@ class WebSocketProtocol13(WebSocketProtocol):
         if is_final_frame:
             handled_future = self._handle_message(opcode, data)
             if handled_future is not None:
-                await handled_future
+                try:
+                    await handled_future
+                except Exception:
+                    # An asynchronous on_message failed: abort like
+                    # _run_callback does for a synchronous one, instead of
+                    # leaving the connection open with no reader.
+                    self.handler.log_exception(*sys.exc_info())
+                    self._abort()
 
     def _handle_message(self, opcode: int, data: bytes) -> "Optional[Future[None]]":
         """Execute on_message, returning its Future if it is a coroutine."""
